@@ -2,6 +2,7 @@ import StorageModel.Driver.Common
 import StorageModel.C15.Spec
 import StorageModel.C15.Config
 import StorageModel.C15.Cursor
+import StorageModel.C15.Paging
 import StorageModel.C15.Order
 import StorageModel.C15.Extended
 import StorageModel.C15.Layout
@@ -30,6 +31,10 @@ import StorageModel.C15.Layout
               observation: Current() (or - when invalid) after opening and after every step
            <s>/q/<filter>/<u|s>/<provider>   QueryWithCursorC (u: no sort, s: sort by name) over
               provider = l<id.id.…> (these ids, those that exist, in this order) | x<r> (the roles index cursor of role r)
+           <s>/p/<filter>/<skip>/<limit>/<steps>   IterateIds(query) with the compiled query `<filter> skip <skip> limit <limit>`
+              (limit - = no limit clause), driven by the script; store 0, 1 or 2
+           <s>/P/<filter>/<skip>/<limit>/<steps>   IterateValidIds(query), stores 0 and 1 (not extended: the same scanner)
+           <s>/Q/<filter>/<skip>/<limit>           QueryIds of the same query: ids of the page, #count of all matching rows
      filter = t | n1 | r1
    output line: the history's segments, then a last segment  K <item>=<observation> …           -/
 namespace StorageModel.Driver.C15
@@ -306,6 +311,8 @@ inductive Prov
 inductive Item
   | cur (s : Sel) (validOnly : Bool) (f : Filter) (steps : List Step)
   | qry (s : Sel) (f : Filter) (sorted : Bool) (p : Prov)
+  | pcur (s : Sel) (f : Filter) (pg : Page) (steps : List Step)
+  | pqry (s : Sel) (f : Filter) (pg : Page)
 
 def parseStep (x : String) : Option Step :=
   match x.toList with
@@ -322,8 +329,23 @@ def parseProv (x : String) : Option Prov :=
   | 'x' :: rest => (String.ofList rest).toNat?.map .roles
   | _ => none
 
+def parseLimit (s : String) : Option (Option Nat) :=
+  if s == "-" then some none else s.toNat?.map some
+
+def parseNotExtended (s : String) : Option Sel :=
+  match s with
+  | "0" => some .A
+  | "1" => some .A1
+  | _ => none
+
 def parseItem (x : String) : Option (String × Item) :=
   match x.splitOn "/" with
+  | [sel, "p", f, sk, li, steps] => do
+    pure (x, .pcur (← parseSel sel) (← parseFilter f) ⟨← sk.toNat?, ← parseLimit li⟩ (← parseSteps steps))
+  | [sel, "P", f, sk, li, steps] => do
+    pure (x, .pcur (← parseNotExtended sel) (← parseFilter f) ⟨← sk.toNat?, ← parseLimit li⟩ (← parseSteps steps))
+  | [sel, "Q", f, sk, li] => do
+    pure (x, .pqry (← parseSel sel) (← parseFilter f) ⟨← sk.toNat?, ← parseLimit li⟩)
   | [sel, "i", f, steps] => do pure (x, .cur (← parseSel sel) false (← parseFilter f) (← parseSteps steps))
   | [sel, "v", f, steps] => do pure (x, .cur (← parseSel sel) true (← parseFilter f) (← parseSteps steps))
   | [sel, "q", f, "u", p] => do pure (x, .qry (← parseSel sel) (← parseFilter f) false (← parseProv p))
@@ -344,6 +366,10 @@ def modelItem (st : St) : Item → String
       | .list l => l.filter fun id => (mget st.ents id).isSome
       | .roles r => rolesIndexIds st r
     natList (if sorted then queryWithCursorSorted st s f provided else queryWithCursor st s f provided)
+  | .pcur s f pg steps => traceS ((iterateIdsPaged st s f pg).trace st s f pg steps)
+  | .pqry s f pg =>
+    let r := queryIdsPaged st s f pg
+    natList r.1 ++ "#" ++ toString r.2
 
 def specLe (ents : Ents) (a b : Nat) : Bool :=
   let na := ((mget ents a).map (·.name)).getD 0
@@ -363,6 +389,10 @@ def specItem (ents : Ents) : Item → String
           | none => false
     let rows := provided.filter (ownedPred ents s false f)
     natList (if sorted then rows.mergeSort (specLe ents) else rows)
+  | .pcur s f pg steps => traceS ((PListCur.start pg (ownedIds ents s false f)).trace pg steps)
+  | .pqry s f pg =>
+    let owned := ownedIds ents s false f
+    natList (pg.of owned) ++ "#" ++ toString owned.length
 
 def itemsOut (f : Item → String) (items : List (String × Item)) : String :=
   "K " ++ " ".intercalate (items.map fun (src, it) => src ++ "=" ++ f it)
